@@ -924,3 +924,20 @@ package websocket
 //@ tags C01 C06
 //@ requires 0 <= code && code < 65536
 //@ ensures [be16] specBE16(byte(code>>8), byte(code)) == code
+// ---------------------------------------------------------------------------
+// compress.go: RFC 7692 7.2.1 - the last four octets (00 00 ff ff) of each compressed
+// message are not sent: trimLastFourBytesWriter forwards everything except the last four
+// bytes written so far, which it keeps in tail (C01, C02)
+
+//@ func (*trimLastFourBytesWriter).Write
+//@ tags C02 C01
+//@ requires tw != nil && tw.w != nil && len(tw.tail) <= 4 && (tw.tail == nil ==> len(tw.tail) == 0) && (tw.tail != nil ==> cap(tw.tail) >= 4) && len(p) < 1<<56
+//@ requires [stream] 0 <= ghwr(tw.w).pos && ghwr(tw.w).pos < 1<<58
+//@ requires [alias] len(p) == 0 || gvcRegion(p) != gvcRegion(tw.tail)
+//@ modifies tw.tail, bytes(tw.tail), ghwr(tw.w).pos, ghwr(tw.w).out
+//@ ensures [tail-len] result1 == nil ==> len(tw.tail) == specMin(4, old(len(tw.tail))+len(p))
+//@ ensures [forwarded-len] result1 == nil ==> ghwr(tw.w).pos == old(ghwr(tw.w).pos)+old(len(tw.tail))+len(p)-len(tw.tail)
+//@ ensures [n] result1 == nil ==> result0 == len(p)
+//@ ensures [prefix] forall(0, old(ghwr(tw.w).pos), func(k int) bool { return ghwr(tw.w).out[k] == old(ghwr(tw.w).out[k]) })
+//@ ensures [forwarded-content] result1 == nil ==> forall(0, old(len(tw.tail))+len(p)-len(tw.tail), func(k int) bool { return ghwr(tw.w).out[old(ghwr(tw.w).pos)+k] == old(specCat(tw.tail, p, k)) })
+//@ ensures [tail-content] result1 == nil ==> forall(0, len(tw.tail), func(i int) bool { return tw.tail[i] == old(specCat(tw.tail, p, len(tw.tail)+len(p)-specMin(4, len(tw.tail)+len(p))+i)) })
